@@ -122,6 +122,30 @@ def _template_item(w: Random, c: _Counter, where: str) -> dict:
         # file based template: the document names the template directory (path) itself
         item["template"] = "q.j2" if where == "post" else "qs.j2"
         item["path"] = gen.pick(w, ["@S@/B", "@S@/A", "@S@/A_evil", "@S@"])
+    elif gen.chance(w, 0.2):
+        # the template text itself tries to obtain a capability: through the pipeline object it is given it
+        # calls the pipeline loader with the opt-in arguments and uses what that built
+        import json as _json
+
+        how = gen.pick(w, ["from_dict_ext", "from_dict_ext", "from_yaml_ext", "from_dict_vars"])
+        if how == "from_dict_vars":
+            vf2 = gen.pick(w, sorted(VARS_FILES))
+            inner = {"postprocessing": [{"type": "template", "template": "x", "vars": VARS_FILES[vf2]}]}
+            call = "pipeline.from_dict(" + _json.dumps(inner) + ", allow_template_vars=true)"
+            item["template"] = tpl + "{% set p = " + call + " %}" + f" t{n}"
+        else:
+            ext = _ext_item(w, c)
+            item["_escape"] = ext
+            inner = {"transformations": [ext]}
+            if how == "from_dict_ext":
+                call = "pipeline.from_dict(" + _json.dumps(inner) + ", allow_external_sources=true)"
+            else:
+                call = "pipeline.from_yaml(" + _json.dumps(_json.dumps(inner)) + ", allow_external_sources=true)"
+            item["template"] = (tpl + "{% set p = " + call + " %}"
+                                "{% set r = p.items[0].transformation.placeholder_replacements(none) %}" + f" t{n}")
+        if gen.chance(w, 0.5):
+            item.pop("vars", None)
+            item["_vf"] = ""
     return item
 
 
@@ -291,7 +315,7 @@ class Sim:
         if isinstance(x, list):
             return [self.subst(y) for y in x]
         if isinstance(x, dict):
-            return {k: self.subst(v) for k, v in x.items() if k != "_vf"}
+            return {k: self.subst(v) for k, v in x.items() if not k.startswith("_")}
         return x
 
     def record(self, kind: str, ident: str) -> None:
@@ -495,11 +519,15 @@ def execute(scenario: dict) -> dict:
     objs: dict[str, Any] = {}
     executed: dict[str, set] = {}    # pipeline id -> vars files executed by its latest load
     token_owner: dict[str, str] = {}
+    probes: dict[str, int] = {}
     for pid, doc in sc["pipelines"].items():
         for it in _items(doc, ("file_placeholders", "http_placeholders", "command_placeholders")):
             token_owner[_token_of(it)] = pid
+        for it in _items(doc, ("template",)):
+            if it.get("_escape"):
+                token_owner[_token_of(it["_escape"])] = pid
+                probes["template_text_calls_the_pipeline_loader"] = 1
     faults: dict[str, int] = {}
-    probes: dict[str, int] = {}
     log: list[Any] = []
     violation = None
     outcome: list[str] = []
@@ -590,7 +618,8 @@ def execute(scenario: dict) -> dict:
             for ev in [e for e in sim.events if e["t"] == k]:
                 core.merge_counts(faults, {"event:" + ev["kind"].split(":")[0]: 1})
                 ok, why = _permitted(sc, ev, env_at[k], loads, load_of_op, token_owner, sim,
-                                     executed.get(str(op.get("pipeline")), set()))
+                                     executed.get(str(op.get("pipeline")), set()),
+                                     loads.get(str(op.get("pipeline"))) if kind == "Convert" else None)
                 if not ok and violation is None:
                     violation = {"oracle": "event-permitted-by-caller-or-environment", "kind": "unpermitted:" + ev["kind"].split(":")[0],
                                  "step": k, "got": ev, "want": why}
@@ -632,7 +661,7 @@ def execute(scenario: dict) -> dict:
 
 
 def _permitted(sc: dict, ev: dict, env: dict, loads: dict, load_of_op: dict, token_owner: dict, sim: Sim,
-               executed: set) -> tuple[bool, str]:
+               executed: set, use_grant: dict | None = None) -> tuple[bool, str]:
     kind = ev["kind"]
     if kind == "varscall":
         # a template called a helper exported by a vars file: fine iff that file was executed (and so
@@ -656,7 +685,11 @@ def _permitted(sc: dict, ev: dict, env: dict, loads: dict, load_of_op: dict, tok
     if kind == "vars":
         grant = load_of_op.get(ev["t"])
         if grant is None:
-            return False, "vars file executed outside of a load"
+            # not during a load: while a pipeline is used.  The library never does that by itself; if
+            # something in the document brings it about, the grant of that pipeline's load counts
+            grant = use_grant
+        if grant is None:
+            return False, "vars file executed outside of a load and outside the use of a loaded pipeline"
         if not (grant["vars"] or _truthy_env(env[VARS_ENV])):
             return False, f"vars file executed: caller did not allow it and {VARS_ENV}={env[VARS_ENV]!r}"
         real = ev["id"].replace("@S@", sim.S)
